@@ -34,6 +34,13 @@ def _code(table, key):
     return table.setdefault(key, len(table))
 
 
+def _meta_code(md):
+    if not isinstance(md, dict):
+        return -1
+    key = repr(sorted((str(k), repr(v)) for k, v in md.items()))
+    return _code(_state.setdefault('meta', {}), key)
+
+
 def _project(t):
     coords = np.array(t.coords, dtype=float)
     pos = (np.asarray(t.base_positions, dtype=float)[None] + np.cumsum(coords, axis=0)) if t.coords_are_displacement else coords
@@ -41,7 +48,7 @@ def _project(t):
     ok = k != OFFGRID
     k = np.where(ok, np.mod(k, N), OFFGRID)
     return {'pos': k.tolist(), 'sp': [_code(_state['sp'], getattr(s, 'symbol', str(s))) for s in t.species],
-            'dt': _code(_state['dt'], repr(t.time_step)), 'meta': int(t.metadata.get('temperature', -1)) if isinstance(t.metadata, dict) else -1,
+            'dt': _code(_state['dt'], repr(t.time_step)), 'meta': _meta_code(t.metadata),
             'dead': False}
 
 
